@@ -35,6 +35,12 @@ type Interp struct {
 	// run: rules use it to tell which fields of an object a function assigns,
 	// whatever the shape of the code that does it.
 	Written map[*Node]bool
+	// Digest, when non-nil, supplies the digest bytes of a modelled hash
+	// (hashmodel.go): it is called once per Sum / one-shot digest with the
+	// algorithm and the exact byte cells that were hashed, and returns a slice
+	// of the digest's size (ok == false: use a fresh symbolic source).
+	Digest  func(in *Interp, alg string, content Slice) (Slice, bool)
+	digests map[string]int
 
 	// path enumeration (see Paths): outcomes prescribed for the first
 	// data-dependent branches that do not guard an error exit, and the outcomes
@@ -154,6 +160,8 @@ func (in *Interp) Havoc(v Value, why string) {
 		if a.V != nil {
 			in.Havoc(a.V, why)
 		}
+	case Hash:
+		a.N.Kids[0].Leaf = Opaque{why}
 	}
 }
 
